@@ -486,15 +486,154 @@ MODELS = [
                lambda: {'1': 0.0, 'null': -0.0}]),
     ]),
 ]
-HIDDEN_MODEL = ('hidden', Hidden, [Hidden], [
-    ('v', [lambda: Hidden(1), lambda: Hidden(2, 'x')])])
 MODEL_IDX = {m[0]: i for i, m in enumerate(MODELS)}
+
+
+# ---- dump-only models (C06): classes that do not load back by themselves
+class PlainAttrs:
+    """_yatiml_attributes returns a PLAIN dict whose keys are not in
+    alphabetical order: 'dict order kept'."""
+    def __init__(self, a: int) -> None:
+        self.a = a
+
+    def _yatiml_attributes(self) -> dict:
+        return {'zeta': self.a, 'alpha': [self.a], 'mid': {'y': 1, 'b': 2}}
+
+
+class Postcode:
+    """A 'parsed class': sweeten REPLACES the mapping by a scalar."""
+    def __init__(self, digits: int, letters: str) -> None:
+        self.digits, self.letters = digits, letters
+
+    @classmethod
+    def _yatiml_sweeten(cls, node: yatiml.Node) -> None:
+        node.set_value('{} {}'.format(
+            node.get_attribute('digits').get_value(),
+            node.get_attribute('letters').get_value()))
+
+
+class Cur(enum.Enum):
+    EUR = 1
+    USD = 2
+
+
+class Money:
+    """Replaced by a scalar too; the LAST attribute is an object PyYAML may
+    alias (an enum member)."""
+    def __init__(self, amount: int, currency: Cur) -> None:
+        self.amount, self.currency = amount, currency
+
+    @classmethod
+    def _yatiml_sweeten(cls, node: yatiml.Node) -> None:
+        node.set_value('{} {}'.format(
+            node.get_attribute('amount').get_value(),
+            node.get_attribute('currency').get_value()))
+
+
+class Upper(UserString):
+    @classmethod
+    def _yatiml_sweeten(cls, node: yatiml.Node) -> None:
+        node.set_value(str(node.get_value()).upper())
+
+
+class Addr:
+    def __init__(self, code: Postcode, codes: List[Postcode],
+                 price: Optional[Money] = None) -> None:
+        self.code, self.codes, self.price = code, codes, price
+
+
+class Special:
+    """sweeten adds scalars of every kind through the helper functions."""
+    def __init__(self, x: int) -> None:
+        self.x = x
+
+    @classmethod
+    def _yatiml_sweeten(cls, node: yatiml.Node) -> None:
+        x = int(node.get_attribute('x').get_value())
+        node.set_attribute('f', [float('inf'), float('-inf'), float('nan'),
+                                 1e20, 1e-7, 1.5, 0.0][x % 7])
+        node.set_attribute('n', None)
+        node.set_attribute('b', x % 2 == 0)
+        node.set_attribute('s', ['1e5', 'true', '', 'null'][x % 4])
+
+
+class Nulled:
+    def __init__(self, x: int) -> None:
+        self.x = x
+
+    @classmethod
+    def _yatiml_sweeten(cls, node: yatiml.Node) -> None:
+        x = int(node.get_attribute('x').get_value())
+        node.set_value([None, float('inf'), 1e20, True, 7, float('nan')][
+            x % 6])
+
+
+def _special_projection(x):
+    return OrderedDict([
+        ('x', x),
+        ('f', [float('inf'), float('-inf'), float('nan'), 1e20, 1e-7, 1.5,
+               0.0][x % 7]),
+        ('n', None), ('b', x % 2 == 0),
+        ('s', ['1e5', 'true', '', 'null'][x % 4])])
+
+
+def _nulled_projection(x):
+    return [None, float('inf'), 1e20, True, 7, float('nan')][x % 6]
+
+
+def _codes(mode):
+    p, q = Postcode(1098, 'XG'), Postcode(1, '1e5')
+    if mode == 0:
+        return p
+    if mode == 1:
+        return [p, p]                   # the same object twice
+    if mode == 2:
+        return {'a': p, 'b': [p], 'c': q}
+    if mode == 3:
+        return Addr(p, [p, q, p])
+    if mode == 4:
+        u = Upper('abc')
+        return [u, Upper('x'), u]
+    if mode == 5:       # aliasable last attribute, repeated later
+        return [Money(10, Cur.EUR), Money(5, Cur.EUR)]
+    if mode == 6:
+        m = Money(1, Cur.USD)
+        return [m, Money(2, Cur.EUR), m, Cur.EUR]
+    return Addr(p, [], Money(3, Cur.EUR))
+
+
+class Collide:
+    """An extra attribute named like a constructor parameter: what the text
+    holds is not pinned, but dumping must not change the object."""
+    def __init__(self, a: int, b: int = 0,
+                 _yatiml_extra: Optional[OrderedDict] = None) -> None:
+        self.a, self.b = a, b
+        self._yatiml_extra = (OrderedDict() if _yatiml_extra is None
+                              else _yatiml_extra)
+
+
+DUMP_ONLY_MODELS = [
+    ('hidden', Hidden, [Hidden], [
+        ('v', [lambda: Hidden(1), lambda: Hidden(2, 'x')])]),
+    ('plainattrs', PlainAttrs, [PlainAttrs], [
+        ('v', [lambda: PlainAttrs(1), lambda: [PlainAttrs(2)]])]),
+    ('codes', Any, [Postcode, Money, Cur, Upper, Addr], [
+        ('v', [lambda m=m: _codes(m) for m in range(8)])]),
+    ('special', Any, [Special, Nulled], [
+        ('special', [lambda x=x: Special(x) for x in range(7)]),
+        ('nulled', [lambda x=x: [Nulled(x)] for x in range(6)]),
+        ('top', [lambda x=x: Nulled(x) for x in range(6)])]),
+    ('collide', Collide, [Collide], [
+        ('v', [lambda: Collide(10, 1, OrderedDict([('b', 5), ('c', 6)])),
+               lambda: Collide(10, 1, OrderedDict([('z', 1), ('a', 5)])),
+               lambda: Collide(1, 2, OrderedDict([('k', [1])]))])]),
+]
 
 
 def value(mi: int, f: int, x: int):
     """Alternative x of factor f of model mi (concrete indices via pick), or
     None when out of range."""
-    name, dt, classes, factors = MODELS[mi]
+    name, dt, classes, factors = (MODELS + DUMP_ONLY_MODELS)[mi]
     if f >= len(factors):
         return None
     alts = pick([fa[1] for fa in factors], f)
